@@ -12,6 +12,8 @@ from __future__ import annotations
 
 import ast
 
+from .helpers import Every  # noqa: E402
+
 from .. import terms as T
 from ..model import AnalysisError, self_attr, walk_no_nested
 from ..paths import unversion
@@ -114,6 +116,7 @@ def _verifiers(chk, ctx) -> None:
     cards = T.spec('self._verify_cards_consumption(1 if cards is None else cards)')
     pend = lambda pi: ('sub', ('self', 'hole_dealing_statuses'), pi)  # noqa
     ok_player = ok_count = ok_default = False
+    ok_default = Every()
     for exc, last, cs, p in raise_guards(ctx, 'verify_hole_dealing'):
         for pi in (('name', 'player_index'), ('self', 'hole_dealee_index')):
             if last == T.mk_not(T.truthy(pend(pi))):
@@ -123,7 +126,7 @@ def _verifiers(chk, ctx) -> None:
     for p in ctx.paths(fi):
         if p.returned and T.cmp('Is', ('name', 'player_index'), ('const', None)) in [unversion(c) for c in p.conds()]:
             r = unversion(p.outcome[1])
-            ok_default = r == ('tuple', (cards, ('self', 'hole_dealee_index')))
+            ok_default.see(r == ('tuple', (cards, ('self', 'hole_dealee_index'))))
     chk.ob('C10.verifiers', 'State.verify_hole_dealing', ok_player and ok_count and ok_default, fi.loc,
            'hole cards go to a player who is still owed cards, between 1 and as many as he is owed; by default one card to the next dealee',
            got=f'owed-player check: {ok_player}; 1..owed count check: {ok_count}; default (1 card, next dealee): {ok_default}')
@@ -158,6 +161,8 @@ def _order(chk, ctx) -> None:
     want_stud = T.spec('max(self.player_indices, key=lambda i: (len(self.hole_dealing_statuses[i]), -i))')
     want_draw = T.spec('next(filter(partial(getitem, self.hole_dealing_statuses), self.player_indices))')
     ok_s = ok_d = False
+    ok_s = Every()
+    ok_d = Every()
     got = []
     for p in ctx.paths(fi):
         if not p.returned or any(e.kind == 'exc' for e in p.events):
@@ -166,9 +171,9 @@ def _order(chk, ctx) -> None:
         r = unversion(p.outcome[1])
         got.append(T.show(r))
         if stud in cs:
-            ok_s = r == want_stud
+            ok_s.see(r == want_stud)
         elif T.mk_not(stud) in cs:
-            ok_d = r == want_draw
+            ok_d.see(r == want_draw)
     chk.ob('C10.order', 'State.hole_dealee_index', ok_s and ok_d, fi.loc,
            'next dealee: the player owed the most cards, earliest seat first (one card per round in position order); '
            'after a draw the first player owed replacements', got=got, want=[T.show(want_stud), T.show(want_draw)])
@@ -222,6 +227,7 @@ def _facing(chk, ctx) -> None:
     pi, cards = ('proj', ver, 1), ('proj', ver, 0)
     pop = T.spec('self.hole_dealing_statuses[P].popleft()', {'P': pi})
     ok = False
+    ok = Every()
     for p in ctx.paths(fi):
         if not p.returned:
             continue
@@ -231,7 +237,7 @@ def _facing(chk, ctx) -> None:
             (('sub', ('self', 'hole_card_statuses'), pi), 'call:append', ('tuple', (pop,))),
         ]
         if any(e.kind == 'loop' and e.op == 'enter' for e in p.events):
-            ok = all(n in ws for n in need) and sum(1 for w in ws if w[1] == 'call:popleft') == 1
+            ok.see(all(n in ws for n in need) and sum(1 for w in ws if w[1] == 'call:popleft') == 1)
     chk.ob('C10.facing', 'State.deal_hole', ok, fi.loc,
            'each dealt card takes the next facing (up/down) of the street, in order, for the player it is dealt to')
 
